@@ -178,6 +178,13 @@ func (x *Exec) doCall(s *State, call *ssa.CallCommon, fnv Val, args []Val, in *s
 		x.havocArgsPointees(s, call, args)
 		return x.freshResults(s, sig, fn.Name()), true
 	case calleeDynamic:
+		if !call.IsInvoke() {
+			if nt, ok := call.Value.Type().(*types.Named); ok && nt.Obj().Pkg() != nil && nt.Obj().Pkg().Path() == "context" && nt.Obj().Name() == "CancelFunc" {
+				x.E.Note("calling a context.CancelFunc is assumed to have no effect on modelled state")
+				x.event(s, "cancel", call)
+				return TupleVal{}, true
+			}
+		}
 		name := "dynamic"
 		if call.IsInvoke() {
 			name = call.Method.FullName()
@@ -631,9 +638,24 @@ func (x *Exec) applyContract(s *State, c *Contract, call *ssa.CallCommon, args [
 	if len(results) == 0 && len(vals) == 1 {
 		results[c.ResultNm[0]] = SVal{T: vals[0].(TermVal).T, GT: c.Results[0].Type()}
 	}
-	postEnv := &SpecEnv{X: x, S: s, Old: pre, Vars: vars, Results: results, Pkg: c.SpecPkg, Fn: x.fn, PostParams: postParams, CalleeView: true}
+	allocPre, okA := s.heap["$alloc"]
+	if !okA {
+		allocPre = x.entryAlloc()
+	}
+	postEnv := &SpecEnv{X: x, S: s, Old: pre, Vars: vars, Results: results, Pkg: c.SpecPkg, Fn: x.fn, PostParams: postParams, CalleeView: true, AllocPre: allocPre}
 	for _, en := range c.Ensures {
 		s.assume(x.evalBool(postEnv, en.E))
+	}
+	// objects returned by the callee are allocated from now on
+	for _, v := range vals {
+		if tv, ok := v.(TermVal); ok && tv.T.Sort == smt.Ref {
+			cur, ok := s.heap["$alloc"]
+			if !ok {
+				cur = x.entryAlloc()
+			}
+			x.E.HeapSorts["$alloc"] = smt.Arr(smt.Ref, smt.Bool)
+			s.heap["$alloc"] = smt.Store(cur, tv.T, smt.True)
+		}
 	}
 	_ = sig
 	return resultVal(sig, vals), true
